@@ -91,7 +91,11 @@ CHECKS["C18"] = dict(
          "real shared PointJacobi under the deterministic scheduler with a context switch before every access to those fields "
          "(class-level descriptors); access kinds must match the spec step by step (conformance), every value read is checked "
          "complete, results are compared with sequential results. If the code's accesses deviate (DRIFT), all schedules of the "
-         "real code are explored for that combination.",
+         "real code are explored for that combination. Line granularity: a single preemption at every line of the point class "
+         "(pairs involving lazy tables, rescaling, pickling) and of the key classes' methods; two shared points in opposite roles; "
+         "locks the point / key modules create themselves are replaced by scheduler-controlled ones, so a deadlock is observed as "
+         "'no thread enabled'. Shared keys: every schedule of the real code for pairs of verify (valid and invalid signature) / "
+         "to_string / precompute / sign / ==, access logs validated against KeyThreads.tla.",
     note="Trusted: TLC, CPython atomicity of attribute load/store and dict.copy(). Yield points are accesses to the shared "
          "object's mutable fields, not every source line (thread-local computation between accesses commutes).",
     technique="TLC model checking of PointThreads.tla + replay of TLC's interleavings into real objects under a controlled scheduler (S->C) with step-wise access conformance",
@@ -122,7 +126,10 @@ CHECKS["C19"] = dict(
          "the spec). TLC checks ValuesNeverChange / EqExact / CopiesFaithful / ArithmeticExact on all histories with 3 objects on Z_7 "
          "and generates behaviours (-simulate, depth 26-40, pool of 6) over new (scaled/unscaled, with/without order, generator), "
          "x/y/scale/to_affine/from_affine/double/neg/add/mul/mul_add/==/pickle/key creation/precompute lazy+eager/verify/to_string/"
-         "key ==; S->C: each behaviour is replayed on real objects on toy curves of order 7, 13, 29, 257 comparing every result "
+         "key ==, and for SIGNING keys creation / sk.verifying_key (aliased public key) / signing with explicit and RFC 6979 nonces over "
+         "three digest widths / five serialisations and re-loading from each / verification of a pool signer's signature by a pool "
+         "key / verifying-key reloads from seven forms / augmented addition on aliases handed back by the library; "
+         "S->C: each behaviour is replayed on real objects on toy curves of order 7, 13, 29, 257 comparing every result "
          "with the specified value, re-denoting EVERY live object from its raw coordinates after each step, and comparing key "
          "operations with a freshly constructed key of the same value.",
     note="Trusted: TLC, CPython, harness affine arithmetic used to map a scalar to its point. Histories are simulated (random walks) "
